@@ -367,4 +367,22 @@ def calculus (cmd : String) (tag : Option String) (nums : List FX) (knot : List 
     | _, _ => none
   | none => none
 
+/-- C19: an `Ok` value has at least one segment, every end is a normal float, ends are non-decreasing, and
+(reported by the harness) direct evaluation, the stateful evaluator and evaluate_v agree on it without panic -/
+def arbitrary (agree : Option String) (impl : Out) : Option String :=
+  match impl with
+  | .err => none
+  | .panic => some "Arbitrary panicked"
+  | .segs rs =>
+    match rs.mapM (fun (e, _) => unv e) with
+    | none => none
+    | some es =>
+      let normal (x : F64) : Bool := match x with | .fin _ m _ => decide (2 ^ 52 ≤ m) | _ => false
+      if es.isEmpty then some "Ok value with no segment"
+      else if !(es.all normal) then some "Ok value with a breakpoint that is not a normal float"
+      else if !(List.zip es es.tail).all (fun (a, b) => F64.le a b) then some "Ok value whose breakpoints are not non-decreasing"
+      else if agree == some "0" then some "direct evaluation, evaluator and evaluate_v disagree (or panic) on the generated value"
+      else none
+  | _ => some "unexpected output shape"
+
 end Mon
